@@ -393,6 +393,10 @@ def trim_wrappers(m, rep):
             if ops != params[:3]:
                 probs.append('%s is called with %s, expected the own arguments (ctx, s, n)' % (cn, ops))
         if sorted(got) != sorted(callees):
+            if not got or list(f.loops()):
+                # written out by hand instead of being composed from the two pieces: not comparable, no verdict
+                rep.unk('K4', name, 'not composed from %s (calls %s, %d loops of its own)' % (callees, sorted(got), len(list(f.loops()))), loc=loc)
+                continue
             probs.append('calls %s, expected %s' % (sorted(got), sorted(callees)))
         if probs:
             rep.bad('K4', name, '; '.join(probs), loc=loc, key='%s: trim pieces' % name)
